@@ -2,6 +2,7 @@
 Function inlining.
 """
 
+import math
 from collections.abc import Iterable
 from dataclasses import dataclass
 
@@ -18,12 +19,31 @@ from ..analysis import (
 from ..ast.fpyast import *
 from ..env import ForeignEnv
 from ..function import Function
-from ..number import REAL
+from ..number import REAL, Float
 from ..utils import Gensym
 from .cursor import Cursor, Edit, EditLog, ExprCursor, expr_sites
 from .path import StmtPath
 from .rename_target import RenameTarget
 from .utils import SiteRewriter, check_where
+
+
+def _same_captured(a: object, b: object) -> bool:
+    """Whether two captured values are the same value.  `==` is not enough:
+    it equates `0.0` with `-0.0` and with `0` and `False`."""
+    if a is b:
+        return True
+    if type(a) is not type(b):
+        return False
+    if isinstance(a, (list, tuple)):
+        assert isinstance(b, (list, tuple))
+        return len(a) == len(b) and all(_same_captured(x, y) for x, y in zip(a, b))
+    if isinstance(a, float):
+        assert isinstance(b, float)
+        return a == b and math.copysign(1.0, a) == math.copysign(1.0, b)
+    if isinstance(a, Float):
+        assert isinstance(b, Float)
+        return a == b and a.s == b.s
+    return a == b
 
 
 def _replace_ret(block: StmtBlock, new_var: NamedId):
@@ -197,7 +217,7 @@ class _FuncInline(SiteRewriter):
             if str(name) in self.env:
                 # already in the environment, check that it is the same
                 val = self.env.get(str(name))
-                if val != e.fn.env.get(str(name)):
+                if not _same_captured(val, e.fn.env.get(str(name))):
                     raise RuntimeError(f'cannot inline function `{e.fn.name}` due to conflicting free variable `{name}`')
         self.env = self.env.merge(ast.env, keys=map(str, ast.free_vars))
         self.free_vars |= ast.free_vars
